@@ -111,11 +111,21 @@ theorem sideMD_res (s : Side) (q : List PKey) (x : List Op) : Res (sideMD s q x)
 
 /-! ### any list of decisions that each stand for one entry of a mapping diff -/
 
-/-- the decision `d` stands for the mapping entry `e`: a plain entry at the root, or the entry `patch k dd` pushed
-    down to its common path -/
+/-- the decision `d` stands for the mapping entries `es` (one entry, or none): plain entries at the root, or the entry
+    `patch k dd` pushed down to its common path -/
+def EntL (d : MD) (es : List Op) : Prop :=
+  ((∀ o ∈ es, isPlainMap o = true) ∧ d.path = [] ∧ Res d.toDecision [] es) ∨
+  (∃ k q' x, d.path = PKey.s k :: q' ∧ es = [.patchK k (pushPath q' x)] ∧ Res d.toDecision (PKey.s k :: q') x)
+
+/-- the decision `d` stands for the mapping entry `e` -/
 def Ent (d : MD) (e : Op) : Prop :=
   (isPlainMap e = true ∧ d.path = [] ∧ Res d.toDecision [] [e]) ∨
   (∃ k q' x, d.path = PKey.s k :: q' ∧ e = .patchK k (pushPath q' x) ∧ Res d.toDecision (PKey.s k :: q') x)
+
+theorem Ent.toL {d : MD} {e : Op} (h : Ent d e) : EntL d [e] := by
+  rcases h with ⟨h1, h2, h3⟩ | ⟨k, q', x, h1, h2, h3⟩
+  · exact Or.inl ⟨fun o ho => by simp at ho; subst ho; exact h1, h2, h3⟩
+  · exact Or.inr ⟨k, q', x, h1, by rw [h2], h3⟩
 
 theorem mkSide_ent (s : Side) {e : Op} (h : e.isMapOp = true) : Ent (mkSide s e) e := by
   rcases mapOp_cases h with hp | ⟨k, dd, rfl⟩
@@ -125,45 +135,36 @@ theorem mkSide_ent (s : Side) {e : Op} (h : e.isMapOp = true) : Ent (mkSide s e)
     rw [hmk]
     exact Or.inr ⟨k, q', x, rfl, by rw [hpush], sideMD_res s _ x⟩
 
-/-- the deep item a non-root decision standing for `e` describes -/
-def itemOf (base : List (String × J)) (d : MD) (e : Op) : DeepItem :=
-  match d.path, e with
-  | .s k :: q', .patchK _ dd =>
-      let v := (lookupKV k base).getD .null
-      ⟨k, q', [], v, (match patch v dd with
-        | .ok pv => pv
-        | .error _ => .null), d.toDecision⟩
-  | _, _ => ⟨"", [], [], .null, .null, d.toDecision⟩
-
-theorem ent_deep (base : List (String × J)) (hc : J.canonicalKvs base = true) {d : MD} {e : Op} (h : Ent d e)
-    (hne : d.path.isEmpty = false) (heff : (mapEff base e).isSome = true) :
-    ∃ it : DeepItem, it.ok base ∧ it.dec = d.toDecision ∧ it.entry = e := by
+theorem entL_deep (base : List (String × J)) (hc : J.canonicalKvs base = true) {d : MD} {es : List Op} (h : EntL d es)
+    (hne : d.path.isEmpty = false) (heff : ∀ o ∈ es, (mapEff base o).isSome = true) :
+    ∃ it : DeepItem, it.ok base ∧ it.dec = d.toDecision ∧ es = [it.entry] := by
   rcases h with ⟨_, hp, _⟩ | ⟨k, q', x, hp, rfl, hres⟩
   · simp [hp] at hne
-  · cases hv : lookupKV k base with
-    | none => simp [mapEff, hv] at heff
+  · have heff' := heff _ List.mem_cons_self
+    cases hv : lookupKV k base with
+    | none => simp [mapEff, hv] at heff'
     | some v =>
       cases hpp : patch v (pushPath q' x) with
-      | error er => simp [mapEff, hv, hpp] at heff
+      | error er => simp [mapEff, hv, hpp] at heff'
       | ok pv =>
         have cv : v.canonical = true := canonicalKvs_mem base hc _ (lookupKV_mem k v base hv)
         exact ⟨⟨k, q', x, v, pv, d.toDecision⟩, ⟨hv, cv, hpp, hres⟩, rfl, rfl⟩
 
-theorem ent_root {d : MD} {e : Op} (h : Ent d e) (hemp : d.path.isEmpty = true) :
-    isPlainMap e = true ∧ Res d.toDecision [] [e] := by
+theorem entL_root {d : MD} {es : List Op} (h : EntL d es) (hemp : d.path.isEmpty = true) :
+    (∀ o ∈ es, isPlainMap o = true) ∧ Res d.toDecision [] es := by
   rcases h with ⟨h1, _, h3⟩ | ⟨k, q', x, hp, _, _⟩
   · exact ⟨h1, h3⟩
   · simp [hp] at hemp
 
 /-- pull a list of items back along a list of decisions -/
-theorem items_exist (base : List (String × J)) (hc : J.canonicalKvs base = true) (f : MD → Op) : ∀ (deep : List MD),
-    (∀ d ∈ deep, Ent d (f d) ∧ d.path.isEmpty = false ∧ (mapEff base (f d)).isSome = true) →
+theorem items_exist (base : List (String × J)) (hc : J.canonicalKvs base = true) (f : MD → List Op) : ∀ (deep : List MD),
+    (∀ d ∈ deep, EntL d (f d) ∧ d.path.isEmpty = false ∧ ∀ o ∈ f d, (mapEff base o).isSome = true) →
     ∃ items : List DeepItem, (∀ it ∈ items, it.ok base) ∧ items.map DeepItem.dec = deep.map MD.toDecision ∧
-      items.map DeepItem.entry = deep.map f
+      items.map DeepItem.entry = deep.flatMap f
   | [], _ => ⟨[], fun _ h => (nomatch h), rfl, rfl⟩
   | d :: rest, h => by
       obtain ⟨h1, h2, h3⟩ := h d List.mem_cons_self
-      obtain ⟨it, i1, i2, i3⟩ := ent_deep base hc h1 h2 h3
+      obtain ⟨it, i1, i2, i3⟩ := entL_deep base hc h1 h2 h3
       obtain ⟨items, j1, j2, j3⟩ := items_exist base hc f rest (fun x hx => h x (List.mem_cons_of_mem _ hx))
       refine ⟨it :: items, ?_, ?_, ?_⟩
       · intro x hx
@@ -171,14 +172,21 @@ theorem items_exist (base : List (String × J)) (hc : J.canonicalKvs base = true
         · exact i1
         · exact j1 x hx
       · simp [i2, j2]
-      · simp [i3, j3]
+      · simp [i3, j3, List.flatMap_cons]
 
-/-- **abstract core**: a list `b` of decisions that stand, one each, for the entries of a mapping diff with
-    pairwise different keys (every entry applicable to `base`): sorted the way `validated` sorts and applied by
+theorem flatMap_pair_snd {α β γ} (f : α → β) (g : α → List γ) : ∀ (l : List α),
+    (l.map (fun d => (f d, g d))).flatMap (·.2) = l.flatMap g
+  | [] => rfl
+  | x :: xs => by
+      simp only [List.map_cons, List.flatMap_cons]
+      rw [flatMap_pair_snd f g xs]
+
+/-- **abstract core**: a list `b` of decisions that stand, each for at most one entry, for the entries of a mapping diff
+    with pairwise different keys (every entry applicable to `base`): sorted the way `validated` sorts and applied by
     `apply_decisions`, they patch `base` with that diff -/
-theorem apply_entries (base : List (String × J)) (hc : (J.obj base).canonical = true) (b : List MD) (f : MD → Op)
-    (ld : List Op) (hent : ∀ d ∈ b, Ent d (f d)) (heff : ∀ d ∈ b, (mapEff base (f d)).isSome = true)
-    (hperm : (b.map f).Perm ld) (hnd : (ld.map Op.skey).Nodup) :
+theorem apply_entriesL (base : List (String × J)) (hc : (J.obj base).canonical = true) (b : List MD) (f : MD → List Op)
+    (ld : List Op) (hent : ∀ d ∈ b, EntL d (f d)) (heff : ∀ d ∈ b, ∀ o ∈ f d, (mapEff base o).isSome = true)
+    (hperm : (b.flatMap f).Perm ld) (hnd : (ld.map Op.skey).Nodup) :
     applyDecisions (.obj base) ((sortDesc b).map MD.toDecision) = patch (.obj base) ld := by
   simp only [J.canonical, Bool.and_eq_true] at hc
   have hb : SK base := keysSorted_sk base hc.1
@@ -187,16 +195,17 @@ theorem apply_entries (base : List (String × J)) (hc : (J.obj base).canonical =
   have hpart := desc_partition (sortDesc b) hdesc
   generalize hdeep : (sortDesc b).filter (fun d => !d.path.isEmpty) = deep at hpart
   generalize hroot : (sortDesc b).filter (fun d => d.path.isEmpty) = root at hpart
-  have hdeepm : ∀ d ∈ deep, Ent d (f d) ∧ d.path.isEmpty = false ∧ (mapEff base (f d)).isSome = true := by
+  have hdeepm : ∀ d ∈ deep, EntL d (f d) ∧ d.path.isEmpty = false ∧ ∀ o ∈ f d, (mapEff base o).isSome = true := by
     intro d hd
     rw [← hdeep, List.mem_filter] at hd
     have hm := hp.subset hd.1
     exact ⟨hent d hm, by simpa using hd.2, heff d hm⟩
-  have hrootm : ∀ d ∈ root, isPlainMap (f d) = true ∧ Res d.toDecision [] [f d] ∧ (mapEff base (f d)).isSome = true := by
+  have hrootm : ∀ d ∈ root, (∀ o ∈ f d, isPlainMap o = true) ∧ Res d.toDecision [] (f d) ∧
+      ∀ o ∈ f d, (mapEff base o).isSome = true := by
     intro d hd
     rw [← hroot, List.mem_filter] at hd
     have hm := hp.subset hd.1
-    obtain ⟨h1, h2⟩ := ent_root (hent d hm) hd.2
+    obtain ⟨h1, h2⟩ := entL_root (hent d hm) hd.2
     exact ⟨h1, h2, heff d hm⟩
   obtain ⟨items, i1, i2, i3⟩ := items_exist base hc.2 f deep hdeepm
   have hdec : (sortDesc b).map MD.toDecision =
@@ -214,12 +223,24 @@ theorem apply_entries (base : List (String × J)) (hc : (J.obj base).canonical =
   · intro p hp'
     obtain ⟨d, hd, rfl⟩ := List.mem_map.mp hp'
     exact (hrootm d hd).2.2
-  · have e1 : items.map DeepItem.entry ++ (root.map (fun d => (d.toDecision, f d))).map (·.2) = (sortDesc b).map f := by
-      rw [hpart, List.map_append, i3]
-      simp [List.map_map, Function.comp]
+  · have e1 : items.map DeepItem.entry ++ (root.map (fun d => (d.toDecision, f d))).flatMap (·.2) = (sortDesc b).flatMap f := by
+      rw [hpart, List.flatMap_append, i3, flatMap_pair_snd]
     rw [e1]
-    exact ((hp.map f).trans hperm).symm
+    exact ((hp.flatMap_right f).trans hperm).symm
   · exact hnd
+
+theorem flatMap_singleton' {α β} (f : α → β) : ∀ (l : List α), l.flatMap (fun d => [f d]) = l.map f
+  | [] => rfl
+  | x :: xs => by simp only [List.flatMap_cons, List.map_cons, List.singleton_append]; rw [flatMap_singleton' f xs]
+
+/-- the one-entry-per-decision form -/
+theorem apply_entries (base : List (String × J)) (hc : (J.obj base).canonical = true) (b : List MD) (f : MD → Op)
+    (ld : List Op) (hent : ∀ d ∈ b, Ent d (f d)) (heff : ∀ d ∈ b, (mapEff base (f d)).isSome = true)
+    (hperm : (b.map f).Perm ld) (hnd : (ld.map Op.skey).Nodup) :
+    applyDecisions (.obj base) ((sortDesc b).map MD.toDecision) = patch (.obj base) ld :=
+  apply_entriesL base hc b (fun d => [f d]) ld (fun d hd => (hent d hd).toL)
+    (fun d hd o ho => by simp at ho; subst ho; exact heff d hd)
+    (by rw [flatMap_singleton']; exact hperm) hnd
 
 /-! ### the decisions `_merge_dicts` records at the root when the two diffs agree on every shared key -/
 
@@ -446,58 +467,76 @@ theorem table_lookup {ld : List Op} {l : List (String × Op)} (hsk : SK l) (hper
     rw [this, lookupKV_of_mem kv.1 kv.2 l hsk.dk hkv] at hk
     cases hk
 
-/-- **key-wise merge, document level, root object**: `ld` and `rd` are mapping diffs (pairwise different keys
-    each) that carry the same entry wherever they share a key. Then applying the decisions of
-    `decide_merge_with_diff` to `base` patches `base` with `ld` and with the entries of `rd` under the other keys:
-    nothing lost, nothing added — every strategy table, every oracle. Special cases: `rd = []` (one-sided local),
-    `ld = []` (one-sided remote), `ld = rd` (agreement), no shared key (changes under different keys, C06). -/
-theorem apply_keywise_obj (E : Env) (base : List (String × J)) (ld rd : List Op) (ds : List MD) (X : J)
-    (hc : (J.obj base).canonical = true)
+/-- the entries of the merged diff: the local diff and the remote entries under the other keys -/
+def unionDiff (ld rd : List Op) : List Op := ld ++ rd.filter (fun e => !(ld.map Op.skey).contains e.skey)
+
+/-- what a key-wise merge decides, exactly: `ds` is the sorted list of one `mkSide` decision per entry of the merged
+    diff; a local-only decision stands for an entry of `ld` under a key `rd` does not touch, a remote-only one for an
+    entry of `rd` under a key `ld` does not touch, an agreed one for an entry of both -/
+theorem keywise_decisions (E : Env) (base : List (String × J)) (ld rd : List Op) (ds : List MD)
     (hmapL : ∀ e ∈ ld, e.isMapOp = true) (hndL : (ld.map Op.skey).Nodup)
     (hmapR : ∀ e ∈ rd, e.isMapOp = true) (hndR : (rd.map Op.skey).Nodup)
     (hagree : ∀ el ∈ ld, ∀ er ∈ rd, el.skey = er.skey → el = er)
-    (hX : patch (.obj base) (ld ++ rd.filter (fun e => !(ld.map Op.skey).contains e.skey)) = .ok X)
     (h : decideMerge E (.obj base) ld rd = .ok ds) :
-    applyDecisions (.obj base) (ds.map MD.toDecision) = .ok X ∧ ∀ d ∈ ds, d.conflict = false := by
+    ∃ b, ds = sortDesc b ∧
+      (∀ d ∈ b, ∃ s e, d = mkSide s e ∧ e ∈ unionDiff ld rd ∧
+        (s = .loc → e ∈ ld ∧ e.skey ∉ rd.map Op.skey) ∧ (s = .rem → e ∈ rd ∧ e.skey ∉ ld.map Op.skey) ∧
+        (s = .both → e ∈ ld ∧ e ∈ rd)) ∧
+      (b.map entryOf).Perm (unionDiff ld rd) ∧ ((unionDiff ld rd).map Op.skey).Nodup ∧
+      (∀ e ∈ unionDiff ld rd, e.isMapOp = true) := by
   obtain ⟨l, hl, hskL, hpermL, hkeyL⟩ := dictBased_nodup ld hmapL hndL
   obtain ⟨r, hr, hskR, hpermR, hkeyR⟩ := dictBased_nodup rd hmapR hndR
   obtain ⟨tl1, tl2, tl3⟩ := table_lookup hskL hpermL hkeyL
   obtain ⟨tr1, tr2, tr3⟩ := table_lookup hskR hpermR hkeyR
-  generalize hU : ld ++ rd.filter (fun e => !(ld.map Op.skey).contains e.skey) = U at hX
-  -- effectiveness of every entry
-  have heffAll : ∀ e ∈ U, (mapEff base e).isSome = true := by
-    rw [patch] at hX
-    simp only [bind, Except.bind] at hX
-    cases hpd : patchDict base U [] [] with
-    | error er => simp [hpd] at hX
-    | ok R => exact fun e he => (patchDict_ok_eff base U [] [] R hpd e he).2
+  generalize hU : unionDiff ld rd = U
+  unfold unionDiff at hU
   -- the decision list
   unfold decideMerge at h
   obtain ⟨n, hn⟩ := bigFuel_succ
   rw [hn] at h
-  have hexact := mergeDicts_keywise_exact E (mergeF E n) false base ld rd l r hl hr
-    (fun k el er h1 h2 => hagree el (tl1 k el h1).1 er (tr1 k er h2).1 (by rw [(tl1 k el h1).2, (tr1 k er h2).2]))
+  have hag' : ∀ k el er, lookupKV k l = some el → lookupKV k r = some er → el = er :=
+    fun k el er h1 h2 => hagree el (tl1 k el h1).1 er (tr1 k er h2).1 (by rw [(tl1 k el h1).2, (tr1 k er h2).2])
+  have hexact := mergeDicts_keywise_exact E (mergeF E n) false base ld rd l r hl hr hag'
     (fun k e h1 => hmapL e (tl1 k e h1).1)
   simp only [mergeF, hexact, bind, Except.bind] at h
   generalize hbdef : (oneKeys l r).filterMap (keyDec l r) ++ (bothKeys l r).filterMap (keyDec l r) = b at h
-  have hb0 : ∀ d ∈ b, ∃ s e, d = mkSide s e ∧ e ∈ U := by
+  have memU_of_l : ∀ k e, lookupKV k l = some e → e ∈ U := by
+    intro k e h1; rw [← hU]; exact List.mem_append_left _ (tl1 k e h1).1
+  have memU_of_r : ∀ k e, lookupKV k l = none → lookupKV k r = some e → e ∈ U := by
+    intro k e h1 h2
+    rw [← hU]
+    apply List.mem_append_right
+    rw [List.mem_filter]
+    refine ⟨(tr1 k e h2).1, ?_⟩
+    have := tl3 k h1
+    rw [(tr1 k e h2).2]
+    simpa using this
+  have hb0 : ∀ d ∈ b, ∃ s e, d = mkSide s e ∧ e ∈ U ∧
+      (s = .loc → e ∈ ld ∧ e.skey ∉ rd.map Op.skey) ∧ (s = .rem → e ∈ rd ∧ e.skey ∉ ld.map Op.skey) ∧
+      (s = .both → e ∈ ld ∧ e ∈ rd) := by
     intro d hd
     rw [← hbdef] at hd
     simp only [List.mem_append, List.mem_filterMap] at hd
     have : ∃ k, keyDec l r k = some d := by
       rcases hd with ⟨k, _, hk⟩ | ⟨k, _, hk⟩ <;> exact ⟨k, hk⟩
     obtain ⟨k, hk⟩ := this
-    obtain ⟨s, e, rfl, hcase⟩ := keyDec_mem hk
-    refine ⟨s, e, rfl, ?_⟩
-    rw [← hU]
-    rcases hcase with h1 | ⟨h1, h2⟩
-    · exact List.mem_append_left _ (tl1 k e h1).1
-    · apply List.mem_append_right
-      rw [List.mem_filter]
-      refine ⟨(tr1 k e h2).1, ?_⟩
-      have := tl3 k h1
-      rw [(tr1 k e h2).2]
-      simpa using this
+    unfold keyDec at hk
+    split at hk
+    · rename_i e h1 h2
+      cases hk
+      exact ⟨.loc, e, rfl, memU_of_l k e h1, fun _ => ⟨(tl1 k e h1).1, by rw [(tl1 k e h1).2]; exact tr3 k h2⟩,
+        (fun hc => nomatch hc), (fun hc => nomatch hc)⟩
+    · rename_i e h1 h2
+      cases hk
+      exact ⟨.rem, e, rfl, memU_of_r k e h1 h2, (fun hc => nomatch hc),
+        fun _ => ⟨(tr1 k e h2).1, by rw [(tr1 k e h2).2]; exact tl3 k h1⟩, (fun hc => nomatch hc)⟩
+    · rename_i e e' h1 h2
+      cases hk
+      have := hag' k e e' h1 h2
+      subst this
+      exact ⟨.both, e, rfl, memU_of_l k e h1, (fun hc => nomatch hc), (fun hc => nomatch hc),
+        fun _ => ⟨(tl1 k e h1).1, (tr1 k e h2).1⟩⟩
+    · cases hk
   have hUmap : ∀ e ∈ U, e.isMapOp = true := by
     intro e he
     rw [← hU] at he
@@ -520,11 +559,6 @@ theorem apply_keywise_obj (E : Env) (base : List (String × J)) (ld rd : List Op
     rw [List.map_congr_left this]; simp
   unfold validated at h
   rw [hstrip] at h
-  subst h
-  refine ⟨?_, fun d hd => by
-    obtain ⟨s, e, rfl, _⟩ := hb0 d (mem_sortDesc b d hd)
-    exact mkSide_noconf s e⟩
-  rw [← hX]
   -- keys of U
   have hndU : (U.map Op.skey).Nodup := by
     rw [← hU, List.map_append, List.nodup_append]
@@ -534,115 +568,138 @@ theorem apply_keywise_obj (E : Env) (base : List (String × J)) (ld rd : List Op
     have := (List.mem_filter.mp he).2
     simp only [Bool.not_eq_true', List.contains_eq_mem, decide_eq_false_iff_not] at this
     exact this (hab ▸ ha)
+  refine ⟨b, h.symm, hb0, ?_, hndU, hUmap⟩
+  -- same entries
+  have hkl : (l.map (·.1)).Nodup := sk_keys_nodup l hskL
+  have hkr : (r.map (·.1)).Nodup := sk_keys_nodup r hskR
+  have hone : (oneKeys l r).Nodup := by
+    unfold oneKeys
+    have hin : ((l.map (·.1)).filter (fun k => !(r.map (·.1)).contains k) ++
+        (r.map (·.1)).filter (fun k => !(l.map (·.1)).contains k)).Nodup := by
+      rw [List.nodup_append]
+      refine ⟨List.filter_sublist.nodup hkl, List.filter_sublist.nodup hkr, ?_⟩
+      intro a ha b' hb' hab
+      subst hab
+      have h1 := (List.mem_filter.mp ha).1
+      have h2 := (List.mem_filter.mp hb').2
+      simp only [Bool.not_eq_true', List.contains_eq_mem, decide_eq_false_iff_not] at h2
+      exact h2 h1
+    exact (sortStrs_perm _ hin).nodup_iff.mpr hin
+  have hboth : (bothKeys l r).Nodup := by
+    unfold bothKeys
+    have hin : ((l.map (·.1)).filter (fun k => (r.map (·.1)).contains k)).Nodup := List.filter_sublist.nodup hkl
+    exact (sortStrs_perm _ hin).nodup_iff.mpr hin
+  have hmemOne : ∀ k, k ∈ oneKeys l r ↔ ((lookupKV k l).isSome ≠ (lookupKV k r).isSome) := by
+    intro k
+    unfold oneKeys
+    rw [mem_sortStrs]
+    simp only [List.mem_append, List.mem_filter, Bool.not_eq_true', List.contains_eq_mem, decide_eq_false_iff_not,
+      mem_keys_iff]
+    cases (lookupKV k l).isSome <;> cases (lookupKV k r).isSome <;> simp
+  have hmemBoth : ∀ k, k ∈ bothKeys l r ↔ ((lookupKV k l).isSome = true ∧ (lookupKV k r).isSome = true) := by
+    intro k
+    unfold bothKeys
+    rw [mem_sortStrs]
+    simp only [List.mem_filter, List.contains_eq_mem, decide_eq_true_eq, mem_keys_iff]
+  have hkeys : (oneKeys l r ++ bothKeys l r).Nodup := by
+    rw [List.nodup_append]
+    refine ⟨hone, hboth, ?_⟩
+    intro a ha b' hb' hab
+    subst hab
+    have h1 := (hmemOne a).mp ha
+    have h2 := (hmemBoth a).mp hb'
+    rw [h2.1, h2.2] at h1
+    exact h1 rfl
+  have hbmap : b.map entryOf = (oneKeys l r ++ bothKeys l r).filterMap (fun k => (keyDec l r k).map entryOf) := by
+    rw [← hbdef, List.filterMap_append, List.map_append, List.map_filterMap, List.map_filterMap]
+  have hkd : ∀ k a, (keyDec l r k).map entryOf = some a → a.skey = k ∧ a ∈ U := by
+    intro k a hka
+    obtain ⟨d, hd, rfl⟩ := Option.map_eq_some_iff.mp hka
+    obtain ⟨s, e, rfl, hcase⟩ := keyDec_mem hd
+    have heU : e ∈ U := by
+      rcases hcase with h1 | ⟨h1, h2⟩
+      · exact memU_of_l k e h1
+      · exact memU_of_r k e h1 h2
+    rw [entryOf_mkSide s (hUmap e heU)]
+    refine ⟨?_, heU⟩
+    rcases hcase with h1 | ⟨_, h2⟩
+    · exact (tl1 k e h1).2
+    · exact (tr1 k e h2).2
+  rw [hbmap]
+  apply (List.perm_ext_iff_of_nodup (filterMap_nodup _ Op.skey (fun k a hka => (hkd k a hka).1) _ hkeys)
+    (nodup_of_map_nodup Op.skey U hndU)).mpr
+  intro a
+  constructor
+  · intro ha
+    obtain ⟨k, _, hka⟩ := List.mem_filterMap.mp ha
+    exact (hkd k a hka).2
+  · intro ha
+    rw [← hU] at ha
+    rw [List.mem_filterMap]
+    refine ⟨a.skey, ?_, ?_⟩
+    · rcases List.mem_append.mp ha with h1 | h1
+      · have hla := tl2 a h1
+        cases hra : (lookupKV a.skey r).isSome with
+        | true => exact List.mem_append_right _ ((hmemBoth _).mpr ⟨by simp [hla], hra⟩)
+        | false => exact List.mem_append_left _ ((hmemOne _).mpr (by simp [hla, hra]))
+      · obtain ⟨h1a, h1b⟩ := List.mem_filter.mp h1
+        simp only [Bool.not_eq_true', List.contains_eq_mem, decide_eq_false_iff_not] at h1b
+        have hra := tr2 a h1a
+        have hla : lookupKV a.skey l = none := by
+          cases hh : lookupKV a.skey l with
+          | none => rfl
+          | some e' => exact absurd (List.mem_map.mpr ⟨e', (tl1 _ e' hh).1, (tl1 _ e' hh).2⟩) h1b
+        exact List.mem_append_left _ ((hmemOne _).mpr (by simp [hla, hra]))
+    · rcases List.mem_append.mp ha with h1 | h1
+      · have hla := tl2 a h1
+        cases hra : lookupKV a.skey r with
+        | none => simp [keyDec, hla, hra, entryOf_mkSide _ (hmapL a h1)]
+        | some e' => simp [keyDec, hla, hra, entryOf_mkSide _ (hmapL a h1)]
+      · obtain ⟨h1a, h1b⟩ := List.mem_filter.mp h1
+        simp only [Bool.not_eq_true', List.contains_eq_mem, decide_eq_false_iff_not] at h1b
+        have hra := tr2 a h1a
+        have hla : lookupKV a.skey l = none := by
+          cases hh : lookupKV a.skey l with
+          | none => rfl
+          | some e' => exact absurd (List.mem_map.mpr ⟨e', (tl1 _ e' hh).1, (tl1 _ e' hh).2⟩) h1b
+        simp [keyDec, hla, hra, entryOf_mkSide _ (hmapR a h1a)]
+
+/-- **key-wise merge, document level, root object**: `ld` and `rd` are mapping diffs (pairwise different keys
+    each) that carry the same entry wherever they share a key. Then applying the decisions of
+    `decide_merge_with_diff` to `base` patches `base` with `ld` and with the entries of `rd` under the other keys:
+    nothing lost, nothing added — every strategy table, every oracle. Special cases: `rd = []` (one-sided local),
+    `ld = []` (one-sided remote), `ld = rd` (agreement), no shared key (changes under different keys, C06). -/
+theorem apply_keywise_obj (E : Env) (base : List (String × J)) (ld rd : List Op) (ds : List MD) (X : J)
+    (hc : (J.obj base).canonical = true)
+    (hmapL : ∀ e ∈ ld, e.isMapOp = true) (hndL : (ld.map Op.skey).Nodup)
+    (hmapR : ∀ e ∈ rd, e.isMapOp = true) (hndR : (rd.map Op.skey).Nodup)
+    (hagree : ∀ el ∈ ld, ∀ er ∈ rd, el.skey = er.skey → el = er)
+    (hX : patch (.obj base) (ld ++ rd.filter (fun e => !(ld.map Op.skey).contains e.skey)) = .ok X)
+    (h : decideMerge E (.obj base) ld rd = .ok ds) :
+    applyDecisions (.obj base) (ds.map MD.toDecision) = .ok X ∧ ∀ d ∈ ds, d.conflict = false := by
+  obtain ⟨b, rfl, hb0, hperm, hndU, hUmap⟩ := keywise_decisions E base ld rd ds hmapL hndL hmapR hndR hagree h
+  change patch (.obj base) (unionDiff ld rd) = .ok X at hX
+  generalize unionDiff ld rd = U at hX hb0 hperm hndU hUmap
+  have heffAll : ∀ e ∈ U, (mapEff base e).isSome = true := by
+    rw [patch] at hX
+    simp only [bind, Except.bind] at hX
+    cases hpd : patchDict base U [] [] with
+    | error er => simp [hpd] at hX
+    | ok R => exact fun e he => (patchDict_ok_eff base U [] [] R hpd e he).2
+  refine ⟨?_, fun d hd => by
+    obtain ⟨s, e, rfl, _⟩ := hb0 d (mem_sortDesc b d hd)
+    exact mkSide_noconf s e⟩
+  rw [← hX]
   apply apply_entries base hc b entryOf U
   · intro d hd
-    obtain ⟨s, e, rfl, he⟩ := hb0 d hd
+    obtain ⟨s, e, rfl, he, _⟩ := hb0 d hd
     rw [entryOf_mkSide s (hUmap e he)]
     exact mkSide_ent s (hUmap e he)
   · intro d hd
-    obtain ⟨s, e, rfl, he⟩ := hb0 d hd
+    obtain ⟨s, e, rfl, he, _⟩ := hb0 d hd
     rw [entryOf_mkSide s (hUmap e he)]
     exact heffAll e he
-  · -- same entries
-    have hkl : (l.map (·.1)).Nodup := sk_keys_nodup l hskL
-    have hkr : (r.map (·.1)).Nodup := sk_keys_nodup r hskR
-    have hone : (oneKeys l r).Nodup := by
-      unfold oneKeys
-      have hin : ((l.map (·.1)).filter (fun k => !(r.map (·.1)).contains k) ++
-          (r.map (·.1)).filter (fun k => !(l.map (·.1)).contains k)).Nodup := by
-        rw [List.nodup_append]
-        refine ⟨List.filter_sublist.nodup hkl, List.filter_sublist.nodup hkr, ?_⟩
-        intro a ha b' hb' hab
-        subst hab
-        have h1 := (List.mem_filter.mp ha).1
-        have h2 := (List.mem_filter.mp hb').2
-        simp only [Bool.not_eq_true', List.contains_eq_mem, decide_eq_false_iff_not] at h2
-        exact h2 h1
-      exact (sortStrs_perm _ hin).nodup_iff.mpr hin
-    have hboth : (bothKeys l r).Nodup := by
-      unfold bothKeys
-      have hin : ((l.map (·.1)).filter (fun k => (r.map (·.1)).contains k)).Nodup := List.filter_sublist.nodup hkl
-      exact (sortStrs_perm _ hin).nodup_iff.mpr hin
-    have hmemOne : ∀ k, k ∈ oneKeys l r ↔ ((lookupKV k l).isSome ≠ (lookupKV k r).isSome) := by
-      intro k
-      unfold oneKeys
-      rw [mem_sortStrs]
-      simp only [List.mem_append, List.mem_filter, Bool.not_eq_true', List.contains_eq_mem, decide_eq_false_iff_not,
-        mem_keys_iff]
-      cases (lookupKV k l).isSome <;> cases (lookupKV k r).isSome <;> simp
-    have hmemBoth : ∀ k, k ∈ bothKeys l r ↔ ((lookupKV k l).isSome = true ∧ (lookupKV k r).isSome = true) := by
-      intro k
-      unfold bothKeys
-      rw [mem_sortStrs]
-      simp only [List.mem_filter, List.contains_eq_mem, decide_eq_true_eq, mem_keys_iff]
-    have hkeys : (oneKeys l r ++ bothKeys l r).Nodup := by
-      rw [List.nodup_append]
-      refine ⟨hone, hboth, ?_⟩
-      intro a ha b' hb' hab
-      subst hab
-      have h1 := (hmemOne a).mp ha
-      have h2 := (hmemBoth a).mp hb'
-      rw [h2.1, h2.2] at h1
-      exact h1 rfl
-    have hbmap : b.map entryOf = (oneKeys l r ++ bothKeys l r).filterMap (fun k => (keyDec l r k).map entryOf) := by
-      rw [← hbdef, List.filterMap_append, List.map_append, List.map_filterMap, List.map_filterMap]
-    have hkd : ∀ k a, (keyDec l r k).map entryOf = some a → a.skey = k ∧ a ∈ U := by
-      intro k a hka
-      obtain ⟨d, hd, rfl⟩ := Option.map_eq_some_iff.mp hka
-      obtain ⟨s, e, rfl, hcase⟩ := keyDec_mem hd
-      have heU : e ∈ U := by
-        rw [← hU]
-        rcases hcase with h1 | ⟨h1, h2⟩
-        · exact List.mem_append_left _ (tl1 k e h1).1
-        · apply List.mem_append_right
-          rw [List.mem_filter]
-          refine ⟨(tr1 k e h2).1, ?_⟩
-          have := tl3 k h1
-          rw [(tr1 k e h2).2]
-          simpa using this
-      rw [entryOf_mkSide s (hUmap e heU)]
-      refine ⟨?_, heU⟩
-      rcases hcase with h1 | ⟨_, h2⟩
-      · exact (tl1 k e h1).2
-      · exact (tr1 k e h2).2
-    rw [hbmap]
-    apply (List.perm_ext_iff_of_nodup (filterMap_nodup _ Op.skey (fun k a hka => (hkd k a hka).1) _ hkeys)
-      (nodup_of_map_nodup Op.skey U hndU)).mpr
-    intro a
-    constructor
-    · intro ha
-      obtain ⟨k, _, hka⟩ := List.mem_filterMap.mp ha
-      exact (hkd k a hka).2
-    · intro ha
-      rw [← hU] at ha
-      rw [List.mem_filterMap]
-      refine ⟨a.skey, ?_, ?_⟩
-      · rcases List.mem_append.mp ha with h1 | h1
-        · have hla := tl2 a h1
-          cases hra : (lookupKV a.skey r).isSome with
-          | true => exact List.mem_append_right _ ((hmemBoth _).mpr ⟨by simp [hla], hra⟩)
-          | false => exact List.mem_append_left _ ((hmemOne _).mpr (by simp [hla, hra]))
-        · obtain ⟨h1a, h1b⟩ := List.mem_filter.mp h1
-          simp only [Bool.not_eq_true', List.contains_eq_mem, decide_eq_false_iff_not] at h1b
-          have hra := tr2 a h1a
-          have hla : lookupKV a.skey l = none := by
-            cases hh : lookupKV a.skey l with
-            | none => rfl
-            | some e' => exact absurd (List.mem_map.mpr ⟨e', (tl1 _ e' hh).1, (tl1 _ e' hh).2⟩) h1b
-          exact List.mem_append_left _ ((hmemOne _).mpr (by simp [hla, hra]))
-      · rcases List.mem_append.mp ha with h1 | h1
-        · have hla := tl2 a h1
-          cases hra : lookupKV a.skey r with
-          | none => simp [keyDec, hla, hra, entryOf_mkSide _ (hmapL a h1)]
-          | some e' => simp [keyDec, hla, hra, entryOf_mkSide _ (hmapL a h1)]
-        · obtain ⟨h1a, h1b⟩ := List.mem_filter.mp h1
-          simp only [Bool.not_eq_true', List.contains_eq_mem, decide_eq_false_iff_not] at h1b
-          have hra := tr2 a h1a
-          have hla : lookupKV a.skey l = none := by
-            cases hh : lookupKV a.skey l with
-            | none => rfl
-            | some e' => exact absurd (List.mem_map.mpr ⟨e', (tl1 _ e' hh).1, (tl1 _ e' hh).2⟩) h1b
-          simp [keyDec, hla, hra, entryOf_mkSide _ (hmapR a h1a)]
+  · exact hperm
   · exact hndU
 
 end Nbdime
